@@ -8,11 +8,13 @@ CONFIG = dict(
     level="proof",
     shims=["dashmap", "once_cell", "num_cpus", "crossbeam-skiplist", "corosensei"],
     inject=[("harness/C12/co_pool.rs", "core/src/co_pool/mod.rs", "kani"),
+            ("harness/C11/co_pool.rs", "core/src/co_pool/mod.rs", "kani"),
             ("harness/common/task_mk.rs", "core/src/co_pool/task.rs", "kani", "pub(crate)")],
     kani=[
         dict(name="c12_lifecycle_step", tier="quick"),
         dict(name="c12_submit_rejected_after_stop_begins", tier="quick"),
         dict(name="c12_clean_settles_every_waiter", tier="quick"),
+        dict(name="c11_listener_counts_ended_workers", tier="quick"),
         dict(name="c12_stop_settles_every_waiter", tier="quick", bounded="<= 2 scheduling rounds (the time limit is reached by the second)"),
     ],
     functions=["CoroutinePool::change_state", "CoroutinePool::stopping", "CoroutinePool::stopped", "CoroutinePool::submit_task (state guard)",
@@ -25,7 +27,7 @@ CONFIG = dict(
     ],
     bounds="state guard obligations: full 3-state domain, loop-free; do_clean: <= 2 registered waiters, all task ids",
     manifest=dict(
-        text="Proof (partial claim). On a pool built by the real constructor: from every pool state each lifecycle operation moves the state at most one step forward along Running->Stopping->Stopped and a refused call changes nothing; a submission in Stopping/Stopped is rejected and leaves queue, maps and state untouched; after the final clean-up every task id with a registered waiter has an error result, its waiter is released and unregistered, and the map operations respect the dependency's locking precondition (so the clean-up itself cannot block forever); and, with the scheduling rounds represented by their contract (workers may or may not finish, scheduling may fail, the time limit is reached by the second round), whenever stop() reports success - from Running, Stopping or Stopped, with or without work still running - the pool is Stopped and every registered waiter has been settled. Not decided: that every accepted task runs before stop reports success, and submit/stop races (schedule properties).",
+        text="Proof (partial claim). On a pool built by the real constructor: from every pool state each lifecycle operation moves the state at most one step forward along Running->Stopping->Stopped and a refused call changes nothing; a submission in Stopping/Stopped is rejected and leaves queue, maps and state untouched; after the final clean-up every task id with a registered waiter has an error result, its waiter is released and unregistered, and the map operations respect the dependency's locking precondition (so the clean-up itself cannot block forever); and, with the scheduling rounds represented by their contract (workers may or may not finish, scheduling may fail, the time limit is reached by the second round), whenever stop() reports success - from Running, Stopping or Stopped, with or without work still running - the pool is Stopped and every registered waiter has been settled; and (so that accepted work is not stranded during the drain) a worker that ends abnormally while tasks are queued is replaced whenever a replacement can be created (unit shared with C11). Not decided: that every accepted task runs before stop reports success, and submit/stop races (schedule properties).",
         note="Trusted: dashmap shim incl. its locking contract, once_cell/num_cpus/crossbeam-skiplist/corosensei shims, catch_unwind call-through. Sequential only; <= 2 waiters.",
         technique="contract-based deductive verification: Kani harness contracts on the real pool (state guard, submit guard, clean-up) with the dependency's locking precondition as a callee contract",
     ),
